@@ -147,7 +147,7 @@ func resultUntouched(c *Ctx, r *Report) {
 				fmt.Sprintf("framework code overwrites %s of a result it did not allocate (%s): the rule's verdict is altered", fv.Name(), apath(fa.X)))
 		})
 	}
-	r.Floor("framework result literals", 8, n)
+	r.Floor("framework result literals", 5, n)
 }
 
 func freshInstances(c *Ctx, r *Report, cs *Census) {
